@@ -27,6 +27,8 @@ type Event struct {
 	RA       RA
 	BadBody  int // index into badBodies; -1 = good-looking body whose transfer breaks half way (read error)
 	LatMs    int // service latency of the answering hop
+	NetErr   int // Kind == "neterr": 0 plain | 1 timeout-like error with Is(context.DeadlineExceeded) | 2 wraps context.Canceled | 3 bare context.DeadlineExceeded | 4 bare context.Canceled - all while the caller's context is alive
+	Barrier  bool // the answer is held until every caller of the case has its attempt of the same number pending, so that all of them are answered at the same virtual instant
 	Redirect int // 0 | 301 302 303 (POST becomes GET) | 307 308 (POST preserved)
 }
 
@@ -41,6 +43,11 @@ type Caller struct {
 
 type Case struct {
 	Callers []Caller
+	// ClientTimeoutMs > 0 builds the http.Client with that Timeout: an answer slower than it is cut by the
+	// client itself - a transport error while the caller's context is alive.
+	ClientTimeoutMs int
+	// Procs > 0 runs the case with that GOMAXPROCS (real parallelism between callers answered at one instant).
+	Procs int
 }
 
 var badBodies = []string{"", "{", "not json at all", "<html><body>503</body></html>", `{"sct_version":0,"timestamp":"x"}`,
@@ -100,6 +107,9 @@ func genRetryable(t *rapid.T) Event {
 	switch rapid.IntRange(0, 9).Draw(t, "rkind") {
 	case 0:
 		e.Kind = "neterr"
+		if rapid.Bool().Draw(t, "ctxlike") {
+			e.NetErr = rapid.IntRange(1, 4).Draw(t, "neterr")
+		}
 	case 1, 2:
 		e.Kind, e.BadBody = "bad", rapid.IntRange(-1, len(badBodies)-1).Draw(t, "badbody")
 	case 3, 4:
@@ -282,8 +292,61 @@ func gen(t *rapid.T) Case {
 	for i := 0; i < n; i++ {
 		c.Callers = append(c.Callers, genCaller(t))
 	}
+	if rapid.IntRange(0, 3).Draw(t, "clienttimeout") == 0 {
+		c.ClientTimeoutMs = pick(t, []int{1, 10, 100, 1000, 3000, 10000, 60000}, "timeout") + rapid.IntRange(0, 50).Draw(t, "timeoutd")
+		for i := range c.Callers {
+			cc := &c.Callers[i]
+			for k := range cc.Script {
+				if cc.Script[k].LatMs == c.ClientTimeoutMs { // no tie between the answer and the client's timer
+					cc.Script[k].LatMs++
+				}
+			}
+			// without a context end the final answer must get through
+			if l := &cc.Script[len(cc.Script)-1]; cc.Ctx == "none" && l.LatMs >= c.ClientTimeoutMs {
+				l.LatMs = c.ClientTimeoutMs - 1
+			}
+		}
+	}
 	return c
 }
+
+// genShared draws the concurrency-focused shape: 2-4 callers without context end whose attempts of the same
+// number are all answered at the same virtual instant (barrier) with very different Retry-After demands,
+// executed with real parallelism. The lower bound must hold per caller against the answer that caller got.
+func genShared(t *rapid.T) Case {
+	c := Case{Procs: 4}
+	n := rapid.IntRange(2, 4).Draw(t, "callers")
+	rounds := rapid.IntRange(1, 6).Draw(t, "rounds")
+	lastBarrier := rapid.Bool().Draw(t, "lastbarrier")
+	for i := 0; i < n; i++ {
+		cc := Caller{API: pick(t, []string{"ppr", "addchain", "addprechain"}, "api"), Ctx: "none"}
+		for r := 0; r < rounds; r++ {
+			e := Event{Kind: "status", Status: pick(t, []int{503, 429}, "status"), Barrier: true}
+			switch rapid.IntRange(0, 9).Draw(t, "shape") {
+			case 0, 1, 2, 3: // a long demand
+				e.RA = RA{Form: pick(t, []string{"sec", "date"}, "form"), Sec: rapid.IntRange(30, 600).Draw(t, "long")}
+			case 4, 5, 6: // a short one
+				e.RA = RA{Form: "sec", Sec: rapid.IntRange(0, 3).Draw(t, "short")}
+			case 7:
+				e.RA = RA{}
+			case 8:
+				e = Event{Kind: "neterr", Barrier: true}
+			default:
+				e = Event{Kind: "status", Status: 408, Barrier: true}
+			}
+			cc.Script = append(cc.Script, e)
+		}
+		cc.Script = append(cc.Script, Event{Kind: "ok", Barrier: lastBarrier})
+		c.Callers = append(c.Callers, cc)
+	}
+	return c
+}
+
+var Shared = harness.Define(harness.Opts{
+	Name: "shared",
+	Rule: "2-4 callers sharing one client, no context end, 1-6 rounds in which all callers are answered at the same virtual instant (barrier in the round tripper) with very different Retry-After demands (30..600 s seconds/date vs 0..3 s, absent, network error, 408), then a good 200; run with GOMAXPROCS=4 so that the callers really run in parallel. Same trace oracle as 'retry'. Non-trivial: always (>= 2 attempts per caller).",
+	Quick: 1500, Thorough: 5000, Crashy: true,
+}, genShared, check)
 
 var Retry = harness.Define(harness.Opts{
 	Name: "retry",
